@@ -303,6 +303,12 @@ def write_probe(tier):
         probe('metrics.nse[%s]' % tr.name, {'obs': x, 'sim': y}, lambda v, tr=tr: M.nse(v['obs'], v['sim'], trans=tr))
         probe('metrics.corr[%s]' % tr.name, {'obs': x, 'ens': ens}, lambda v, tr=tr: M.corr(v['obs'], v['ens'], trans=tr))
     probe('metrics.corr', {'obs': x, 'ens': ens}, lambda v: M.corr(v['obs'], v['ens']))
+    # a single-member ensemble given as a (1, n) row: the wrappers transpose it - on a copy / view, never by reshaping the caller's array
+    row = y[None, :].copy()
+    probe('metrics.corr[row-vector]', {'obs': x, 'ens': row}, lambda v: M.corr(v['obs'], v['ens']))
+    probe('metrics.dscore[row-vector]', {'obs': x, 'ens': row}, lambda v: M.dscore(v['obs'], v['ens']))
+    probe('metrics.crps[row-vector]', {'obs': x, 'ens': row}, lambda v: M.crps(v['obs'], v['ens']))
+    probe('metrics.pit[row-vector]', {'obs': x, 'ens': row}, lambda v: M.pit(v['obs'], v['ens']))
     probe('metrics.crps', {'obs': x, 'ens': ens}, lambda v: M.crps(v['obs'], v['ens']))
     probe('metrics.pit', {'obs': x, 'ens': ens}, lambda v: M.pit(v['obs'], v['ens']))
     probe('metrics.alpha', {'obs': x, 'ens': ens}, lambda v: M.alpha(v['obs'], v['ens']))
@@ -350,6 +356,13 @@ def write_probe(tier):
     probe('signatures.goue', {'idx': np.array([1., 1, 2, 2, 3, 3, 4, 4]), 'x': x}, lambda v: SG.goue(v['idx'], v['x']))
     probe('gutils.points_inside_polygon', {'pts': np.column_stack([x, y]), 'poly': np.array([[0, 0], [5, 0], [5, 5.], [0, 5.]])},
           lambda v: GU.points_inside_polygon(v['pts'], v['poly']))
+    # a caller-supplied output vector: the result does not depend on what it held before
+    ptsq, polyq = np.column_stack([x, y]), np.array([[2., 2.], [5., 2.], [5., 5.], [2., 5.]])
+    r0 = GU.points_inside_polygon(ptsq, polyq)
+    dirty = np.ones(len(ptsq), dtype=np.int32)
+    r1 = GU.points_inside_polygon(ptsq, polyq, inside=dirty)
+    out.append(('result-independent-of-output-buffer-content', bool(np.array_equal(np.asarray(r0).astype(bool), np.asarray(r1).astype(bool))),
+                dict(function='gutils.points_inside_polygon', got=[int(v) for v in np.asarray(r1)], want=[int(v) for v in np.asarray(r0)])))
     probe('boxplot.boxplot_stats', {'x': x}, lambda v: BP.boxplot_stats(v['x'], 50, 90))
     probe('putils.kde', {'xy': np.column_stack([x, y])}, lambda v: PU.kde(v['xy'], ngrid=8))
     probe('putils.qqplot', {'x': x}, lambda v: PU.qqplot(plt.subplots()[1], v['x']), repeat=False)
